@@ -51,7 +51,7 @@ func run(seed int64, n int, dir string, _ []string) {
 			for tries := 0; tries < 400 && st == nil; tries++ {
 				c := r.Gen(false)
 				if c != nil && (c.Kind == "deletem" || c.Kind == "updatem") && len(c.Targets) == 2 &&
-					r.Tab(c.Targets[0]).NextID <= 20 && r.Tab(c.Targets[1]).NextID <= 20 {
+					r.Tab(c.Targets[0]).NextID <= 8 && r.Tab(c.Targets[1]).NextID <= 8 {
 					if c.Kind == want {
 						st = c
 					} else if fallback == nil {
@@ -66,7 +66,7 @@ func run(seed int64, n int, dir string, _ []string) {
 				scanned = true
 				saved := r.CPU
 				r.SetCPU(1)
-				k, _, failed := r.ScanCancel(st, 20000)
+				k, _, failed := r.ScanCancel(st, 3000, false)
 				stmts += k + 1
 				abandon = failed
 				r.SetCPU(saved)
